@@ -431,9 +431,9 @@ def _body(ctx, case):
 
 def search(ctx):
     allow_up = not ctx.is_open(KEY_UPSAMPLE)
-    n_fix = ctx.n(400, 4000)
+    n_fix = ctx.n(350, 3500)
     if not allow_up:
         ctx.exclude(KEY_UPSAMPLE, n_fix)
-    core.run_given(ctx, "geometry", cases(same=False), lambda c: _body(ctx, c), ctx.n(550, 5500))
+    core.run_given(ctx, "geometry", cases(same=False), lambda c: _body(ctx, c), ctx.n(500, 5000))
     core.run_given(ctx, "fixed-point", cases(same=True, allow_upsampled_align=allow_up), lambda c: _body(ctx, c), n_fix)
-    core.run_given(ctx, "history", history_cases(), lambda c: _body(ctx, c), ctx.n(200, 2000))
+    core.run_given(ctx, "history", history_cases(), lambda c: _body(ctx, c), ctx.n(180, 1800))
